@@ -881,6 +881,64 @@ func concFlush(maxpend int, flushop bool, stage int, cancel bool) string {
 	return s.finish(fmt.Sprintf("flush%d", stage), flushed)
 }
 
+// kind "flushwalk": a Twalk to a new fid is cancelled by the implementation (FlushOp) while it executes:
+// only the Rflush arrives, and nothing of the walk may stay behind - the number of the new fid is free again
+// (a second Twalk to it reaches the implementation), the cancelled fid was given back (FidDestroy)
+func concFlushWalk(maxpend int) string {
+	s := newConcSession(maxpend, true)
+	s.setup()
+	const tt, ft, pt = 210, 211, 213
+	flushed := map[uint16]bool{tt: true}
+	flushCancelTags.Store(uint16(tt), true)
+	walk := func(tag uint16) []byte {
+		return mkFrame(&gmsg{kind: go9p.Twalk, a: 0, b: 5, names: [][]byte{[]byte("a")}}, true, tag)
+	}
+	s.send(walk(tt))
+	cr := s.waitReq(tt, 2*time.Second)
+	s.waitLabel(fmt.Sprintf("OC %d", 2), 2*time.Second)
+	s.send(flushReq(ft, tt))
+	s.waitReplies(3, 2*time.Second)
+	if cr != nil {
+		cr.released <- concAction{answers: 1, payload: []byte("w")} // answers late: dropped
+	}
+	time.Sleep(300 * time.Microsecond)
+	s.mu.Lock()
+	ndestroyed := 0
+	for _, f := range s.ops.destroys {
+		if f == 5 {
+			ndestroyed++
+		}
+	}
+	s.mu.Unlock()
+	if ndestroyed != 1 {
+		s.note("C07.cancelled_walk_newfid_destroyed_%d_times", ndestroyed)
+	}
+	// the probe: the same walk again
+	s.send(walk(pt))
+	reached := false
+	if pr := s.waitReq(pt, 2*time.Second); pr != nil {
+		dl := time.Now().Add(time.Second)
+		for time.Now().Before(dl) {
+			s.mu.Lock()
+			reached = pr.called
+			s.mu.Unlock()
+			if reached || len(s.conn.frames()) >= 4 {
+				break
+			}
+			time.Sleep(50 * time.Microsecond)
+		}
+		if reached {
+			pr.released <- concAction{answers: 1, payload: []byte("p")}
+		}
+	}
+	if !reached {
+		s.note("C07.cancelled_walk_left_its_newfid_behind")
+	}
+	s.waitReplies(4, time.Second)
+	flushCancelTags.Delete(uint16(tt))
+	return s.finish("flushwalk", flushed)
+}
+
 // kind "flushcycle": a Tflush naming its own tag, or two Tflush naming each other
 func concFlushCycle(maxpend int, mutual bool) string {
 	s := newConcSession(maxpend, false)
@@ -1471,6 +1529,7 @@ func modeSrvconc(tier string, args []string) {
 				n := n
 				jobs = append(jobs, func() string { return concGroup(mp, n) })
 			}
+			jobs = append(jobs, func() string { return concFlushWalk(mp) })
 			jobs = append(jobs, func() string { return concSlowWrite(mp) })
 			jobs = append(jobs, func() string { return concLateAnswer(mp) })
 			for _, fo := range []bool{false, true} {
